@@ -189,5 +189,40 @@ PROPS["C10"] = {
     "assumptions": ['temp targets and outputs are distinct from sources and static files (domain 4.3 f)'],
 }
 
+PROPS["C11"] = {
+    "jobs": [{"cmd": "c11", "shards": 32, "shards_thorough": 48}],
+    "cli": False,
+    "trusted_base": ["M8 correspondence: library runs on generated trees and input lists vs the Lean whole-run model (resolveInputs, scanDir, naming)", "independent restatement of the processed-set rule in the harness (oracle)"],
+    "modelled": WHOLE_FILE_MODELLED + ["std::path::{extension, file_stem, set_extension} (model PathName), canonicalize/exists/is_dir (OS-style walk over the model tree, no symbolic links)"],
+    "level_text": "Lean theorems for ALL names: foo.txtpp -> foo, foo.ext.txtpp -> foo.ext, foo.txtpp.ext is a txtpp source and -> foo.ext (also for dotted foo: finding F6 repaired), whichever source get_txtpp_file finds for an output name has exactly that output (round trip, names without trailing dot), a source name is never resolved as an output name, look-alikes are not txtpp files. The processed set (named files by either name, files directly in named directories, recursive only on request, plus transitive dependencies when building/verifying, once each) is compared with the model and with an independent restatement on generated trees x input lists incl. aliases, absolute paths, duplicates, missing targets.",
+    "design_ref": "5 C11, 4.6",
+    "level_note": "resolve_inputs_spec / processed_set are not Lean theorems; the executable model functions resolveInputs/scanDir/runProject are tied to the code by M8 and the oracle. Symbolic links to files are outside the domain.",
+    "technique": "Lean 4 proof (file-name algebra for all names) + differential correspondence + independent oracle",
+    "assumptions": ["no symbolic links inside the tree", "names without empty dot segments for the round trip"],
+}
+PROPS["C17"] = {
+    "jobs": [{"cmd": "c17", "shards": 12}],
+    "cli": True,
+    "trusted_base": ["M9: real sh / bash / an argv-logging wrapper shell; pwd -P, $TXTPP_FILE, argv and exit status captured from the real child process", "library runs with the default shell compared with the model (pwd / file actions)"],
+    "modelled": ["std::process::Command (current_dir, env, arg) and the shell are not modelled in Lean: the model states what is handed to them"],
+    "level_text": "Lean theorems over the model: a run directive hands the shell exactly the argument lines joined by single spaces as one string and a failing command fails the directive; base ++ display(base, src) = src (TXTPP_FILE designates the source at every depth); the working directory given to a command of a source at dir/name is base/dir. The contract with the OS is checked by correspondence on depth 0..3 x cwd relation {equal, parent with relative base_dir, unrelated} x library/CLI x {sh, bash, argv-logging shell} x command shapes; the CLI guard on TXTPP_FILE is checked on the binary.",
+    "design_ref": "5 C17",
+    "level_note": "Mostly a correspondence-level claim: process spawning is OS behaviour. Finding F1 (relative cwd) was repaired; the cwd-relation dimension is what exposed it.",
+    "technique": "Lean 4 proof (command join, display/join round trip) + correspondence with real shells",
+    "assumptions": ["sh and bash behave per POSIX for the vocabulary commands"],
+}
+PROPS["C18"] = {
+    "jobs": [{"cmd": "c18", "shards": 32, "shards_thorough": 48}],
+    "cli": False,
+    "inventory": True,
+    "trusted_base": ["M10: function-level fuzz under catch_unwind and whole-run fuzz under a watchdog (in process, all threads share one panic hook)", "panic-site inventory (tools/panic_sites.py): counts of slice/index/unwrap/expect/assert/unreachable/panic/`- 1` expressions per anchored file against the audited counts"],
+    "modelled": ["byte-offset slicing is modelled by byteSplit (defined exactly on char boundaries <= len)", "panics inside std / dependencies and resource exhaustion are outside the model"],
+    "level_text": "Lean theorems, one per panic-capable site of the anchored files: every slice of detect_from and add_line is taken at the byte length of a known prefix (always a char boundary), Display's args[0] exists for every directive detect_from/add_line can produce, lines from str::lines never end in a newline (the assert in inject_tags), the unwrap in notify_finish cannot fail in any reachable coordinator state, and the coordinator loop ends after at most 2|U| deliveries with exit test = nothing in flight (no hang, given no worker panics). The sites are tied to the code by the inventory; fuzzing searches for a failing input.",
+    "design_ref": "5 C18, 4.8",
+    "level_note": "Partial: the inject_tags slice sites (tag_state.rs:84,92) are covered by the M3 correspondence and the fuzz, not yet by a site theorem; panics inside std/dependencies, allocation failure and stack exhaustion are outside the model. F2 (-j 0) and F4 (symlink loop) were repaired.",
+    "technique": "Lean 4 proof (per-site no-panic theorems, termination bound) + panic-site inventory + fuzzing as failing-input search",
+    "assumptions": ["commands terminate"],
+}
+
 # properties not (yet) claimed, with the reason shown in MANIFEST.not_applicable
 PENDING = {}
